@@ -219,6 +219,19 @@ def run(ctx, res):
                 if comps2 is not None:
                     sers2 = [T.impl_ser(c) for c in comps2]
                     row["s2"] = "".join(s for s in sers2 if isinstance(s, str)) if all(isinstance(s, str) for s in sers2) else sers2
+        if comps1 is not None and kind in ("fixture", "generated") and len(rows) % 3 == 0:
+            # the parsed tree belongs to the caller: whatever is done to it, the same text parses to the same tree again
+            for c in comps1:
+                try:
+                    T.scramble(c)
+                except Exception:  # noqa: BLE001
+                    pass
+            T.fresh_cache()
+            o1b, _, _ = T.impl_parse(x, multiple=True)
+            res.evaluations += 1
+            if o1b != o1:
+                res.fail("C01: parsing the same text again gives another tree after the caller edited the first tree in place",
+                         text[:1500], observed=o1b, expected=o1)
         rows.append(row)
     outs = M.batch(reqs) if M else None
     pos = 0
